@@ -78,7 +78,7 @@ def rename_form(form, mapping):
 
 
 LITE_KEEP = {"cq": ("type", "name", "label", "relevant", "constraint", "default"),
-             "drop": ("kl", "s", "sn", "dd", "ddt", "dgp", "dgt", "dgs", "dti", "cx", "cxq")}
+             "drop": ("kl", "s", "ss", "sm", "sn", "dd", "ddt", "dgp", "dgt", "dgs", "dti", "cx", "cxq")}
 
 
 def layout_form(common, rchain, tchain, policy, target_first=True, lite=False):
@@ -162,6 +162,9 @@ def layout_form(common, rchain, tchain, policy, target_first=True, lite=False):
         rows.append({"type": "select_one l", "name": "s", "label": "S",
                      "choice_filter": " or ".join(f"name = ${{{n}}}" for n in T),
                      "parameters": "randomize=true, seed=${tq}"})
+        rows.append({"type": "select_one l", "name": "ss", "label": "SS", "parameters": "randomize=true, seed=${tq} + ${cq}"})
+        rows.append({"type": "select_multiple l", "name": "sm", "label": "SM",
+                     "parameters": "randomize=true;seed=${cq}*31+${tq}" if len(T) % 2 else "randomize=true, seed=${tq}+1"})
         rows.append({"type": "select_one l", "name": "sn", "label": "SN", "choice_filter": nested(T, "or")})
         rows.append({"type": "select_one_external cities", "name": "sx", "label": "SX", "choice_filter": nested(T)})
         begin("group", "cg", relevant=_bool(T + ["cgq"]))
@@ -368,9 +371,11 @@ def probes(form, xi: rc.XIndex):
                 got = [(b.get(attr), 0) for b in xi.binds.get(P, []) if b.get(attr) is not None]
                 out.append((e, base, src, got, P))
             elif base in rc.MSG_COLS:
-                out.append((e, base, src, xi.msg_of(P, rc.MSG_COLS[base]), P))
+                lang = col.split("::", 1)[1] if "::" in col else None
+                out.append((e, base, src, xi.msg_of(P, rc.MSG_COLS[base], lang), P))
             elif base in rc.TEXT_COLS:
-                out.append((e, base, src, xi.text_of(P, base), P))
+                lang = col.split("::", 1)[1] if "::" in col else None
+                out.append((e, base, src, xi.text_of(P, base, lang), P))
             elif base == "default":
                 got = [(v, 0) for (r, ev, v, _c) in xi.setvalues if r == P and "odk-instance-first-load" in ev and v is not None]
                 out.append((e, base, src, got, P))
@@ -393,13 +398,25 @@ def probes(form, xi: rc.XIndex):
                         got = [(m.group(1), 0)]
                 out.append((e, base, src, got, P))
             elif base == "parameters":
-                m = re.search(r"seed\s*=\s*(\$\{[^}]*\})", src)
+                # randomize seed: a reference or any expression over references (the last parameter of the cell)
+                m = re.search(r"seed\s*=\s*(.*\$\{.*?)\s*$", src, re.S)
                 ctl = xi.controls.get(P)
                 its = ctl.find(rc.XF + "itemset") if ctl is not None else None
                 if m and its is not None:
-                    ns = its.get("nodeset") or ""
-                    m2 = re.match(r"^randomize\((.*),\s*(\S+)\s*\)$", ns, re.S)
-                    out.append((e, "seed", m.group(1), [(m2.group(2), 0)] if m2 else [], P))
+                    ns = (its.get("nodeset") or "").strip()
+                    got = []
+                    if ns.startswith("randomize(") and ns.endswith(")"):
+                        depth, cut = 0, None
+                        for i, ch in enumerate(ns):
+                            if ch in "([":
+                                depth += 1
+                            elif ch in ")]":
+                                depth -= 1
+                            elif ch == "," and depth == 1:
+                                cut = i
+                        if cut is not None:
+                            got = [(ns[cut + 1 : -1], 0)]
+                    out.append((e, "seed", m.group(1), got, P))
             elif base == "repeat_count":
                 rep = xi.repeats.get(P)
                 cnt = rep.get(rc.JR + "count") if rep is not None else None
@@ -472,6 +489,9 @@ def check_form(ctx, form, xform, model=None):
                              extra={"cell": cell, "referrer": cpath,
                                     "only_static_minus_defaults": cell == "default" and minus_before_first_dynamic(e.row)}))
             continue
+        if cell in TEXT_CELLS and any(o.strip() != "-" for o, _n in got):
+            # languages for which an untranslated cell has no text carry the "-" placeholder
+            got = [(o, n_) for o, n_ in got if o.strip() != "-"]
         for out, _n in got:
             mt = rc.match_template(src, out)
             if mt is None:
@@ -607,7 +627,7 @@ def corr_find(ctx, texts):
             ctx.mismatch("refsClosed", {"text": t}, impl_closed, m["closed"])
 
 
-FULL_CELLS = ("relevant", "constraint", "required", "read_only", "calculation", "bind::custom", "body::custom", "default",
+FULL_CELLS = ("seed", "relevant", "constraint", "required", "read_only", "calculation", "bind::custom", "body::custom", "default",
               "choice_filter", "repeat_count-expr", "trigger-value")
 
 
@@ -628,7 +648,7 @@ def corr_insert(ctx, form, holes, tree):
         ctx.count(f"insert_xpaths-from-text:{m['out']}")
         if m["out"] == "unsupported":
             continue
-        if m["out"] != "ok" or m["text"] != h["out"]:
+        if m["out"] != "ok" or (m["text"].strip() != h["out"].strip() if h["cell"] == "seed" else m["text"] != h["out"]):
             ctx.mismatch(f"insert_xpaths of {h['cell']}", {"form": form, "query": q}, h["out"], m.get("text", m["out"]))
 
 
@@ -647,6 +667,9 @@ def corr_whole(ctx, form, holes, survey):
              "ia": code_ia_flag(h["src"], h["info"]["start"], h["info"]["end"], h["info"]["name"]),
              "ip": h["flags"]["in_pred"] and h["cell"] != "choice_filter",
              "uc": h["cell"] == "choice_filter", "rp": False}
+        if h["cell"] not in TEXT_CELLS and h["cell"] != "choice_filter":
+            # bind / attribute cells: the whole cell is the regex subject, so the model computes the flags itself
+            q.update({"text": h["src"], "start": h["info"]["start"], "end": h["info"]["end"]})
         qs.append(q)
         hs.append(h)
     if not qs:
@@ -800,23 +823,63 @@ def bad_name_case(ctx, form, els):
     ctx.record(case, True)
 
 
+def shared_text_form(chain, tlevel, variant):
+    """The SAME text-with-reference on referrers at every depth of a chain of groups/repeats (and one outside), in
+    cells whose text travels through itext: translated label/hint, label with media, hint with guidance, constraint /
+    required messages.  Each referrer needs its own path to the target."""
+    rows = []
+
+    def referrer(i):
+        r = {"type": "text", "name": f"q{i}"}
+        if variant == "translated":
+            r.update({"label::en": "Value ${t} here", "label::fr": "Valeur ${t} ici", "hint::en": "Hint ${t} .", "hint::fr": "Aide ${t} .",
+                      "constraint": ". != 'x'", "constraint_message": "Bad ${t} !", "required": "yes", "required_message": "Need ${t} !"})
+        else:
+            r.update({"label": "Pic ${t} shown", "image": "a.png", "hint": "H ${t} .", "guidance_hint": "G ${t} .",
+                      "constraint": ". != 'x'", "constraint_message::en": "Bad ${t} !", "constraint_message::fr": "Mal ${t} !"})
+        return r
+
+    def target():
+        return {"type": "text", "name": "t", "label": "T"}
+
+    rows.append(referrer(0))
+    if tlevel == 0:
+        rows.append(target())
+    for i, kind in enumerate(chain):
+        row = {"type": f"begin {kind}", "name": f"c{i+1}"}
+        if variant == "translated":
+            row.update({"label::en": "Box ${t} .", "label::fr": "Boite ${t} ."})
+        else:
+            row.update({"label": "Box ${t} .", "image": "b.png"})
+        rows.append(row)
+        if tlevel == i + 1:
+            rows.append(target())
+        rows.append(referrer(i + 1))
+    for kind in reversed(chain):
+        rows.append({"type": f"end {kind}"})
+    return {"survey": rows}
+
+
 def explore(ctx, factor, bs):
+    import time
+    _t = [('start', time.time())]
     depth = ctx.pick(3, 4)
     n = 0
     for common, rchain, tchain in rc.layouts(depth):
         for policy in ("neutral", "prefix", "aligned", "reuse"):
-            if policy in ("prefix", "aligned") and not (rchain or tchain):
-                continue
+            if policy in ("prefix", "aligned") and not (rchain and tchain if ctx.quick() else rchain or tchain):
+                continue  # these two relate the names of the two side chains
             n += 1
             form = layout_form(common, rchain, tchain, policy, target_first=(n % 2 == 0),
                                lite=ctx.quick() and policy != "neutral")
             ctx.count(f"policy:{policy}")
             ctx.count(f"depth:{len(common) + max(len(rchain), len(tchain))}")
-            form_case(ctx, form, direct=ctx.pick(12, 100) * factor)
+            form_case(ctx, form, direct=(ctx.pick(12, 100) if policy == "neutral" else ctx.pick(5, 100)) * factor)
         if len(common) + max(len(rchain), len(tchain)) <= ctx.pick(2, 3):
             n += 1
             ctx.count("policy:unicode")
             form_case(ctx, layout_form(common, rchain, tchain, "unicode", target_first=(n % 2 == 0)), direct=ctx.pick(10, 40) * factor)
+    _t.append(('0', time.time()))
     # a name carried by k = 2..6 elements in different groups/repeats, and one reference to it per cell kind
     for k in range(2, 7):
         for col, val in (("calculation", "${site} + 1"), ("relevant", "${site} != ''"), ("label", "L ${site}"),
@@ -841,6 +904,16 @@ def explore(ctx, factor, bs):
             if mres["out"] != "ambiguous":
                 ctx.mismatch("ambiguous name", case, "ambiguous", mres)
             ctx.record(case, True)
+    _t.append(('1', time.time()))
+    # the same itext-carried text with a reference on referrers at different depths
+    import itertools
+    for ln in range(1, ctx.pick(3, 4) + 1):
+        for chain in itertools.product(rc.KINDS, repeat=ln):
+            for tlevel in range(ln + 1):
+                for variant in ("translated", "media"):
+                    ctx.count(f"shared-text:{variant}")
+                    form_case(ctx, shared_text_form(chain, tlevel, variant), tag="shared-text")
+    _t.append(('2', time.time()))
     # finding F46's shape: minus before the first reference in a date/geo default (and the same default on other types)
     for typ in HYPHEN_TYPES + ("integer", "text"):
         for dflt in ("1 - ${a}", "2020-01-01 - ${a}", "${a} - 1", "-1 - ${a}"):
@@ -848,9 +921,11 @@ def explore(ctx, factor, bs):
                                {"type": typ, "name": "q", "label": "Q", "default": dflt}, {"type": "end repeat"}]}
             ctx.count(f"typed-default:{typ}")
             form_case(ctx, form, tag="typed-default")
+    _t.append(('3', time.time()))
     # the reference regex on adversarial strings (unclosed braces, nested openers, newlines, last-saved prefixes)
     texts = ["".join(ctx.rng.choice(FIND_ATOMS) for _ in range(ctx.rng.randint(1, 8))) for _ in range(ctx.pick(400, 5000) * factor)]
     corr_find(ctx, texts)
+    _t.append(('4', time.time()))
     # random deeper trees, mixed expressions
     nrand = ctx.pick(250, 6000) * factor
     for i in range(nrand):
@@ -866,6 +941,10 @@ def explore(ctx, factor, bs):
         # a name that does not exist / exists twice
         if i % 3 == 0:
             bad_name_case(ctx, form, els)
+    _t.append(('end', time.time()))
+    ctx.notes["stream_seconds"] = {"layouts": round(_t[1][1] - _t[0][1], 1), "occurrences": round(_t[2][1] - _t[1][1], 1),
+                                   "shared-text": round(_t[3][1] - _t[2][1], 1), "typed-defaults": round(_t[4][1] - _t[3][1], 1),
+                                   "regex-strings": round(_t[5][1] - _t[4][1], 1), "random": round(_t[6][1] - _t[5][1], 1)}
     ctx.notes["exhaustive"] = f"all layouts (common, referrer chain, target chain) of groups/repeats with depth <= {depth}: {n} forms"
 
 
